@@ -196,8 +196,8 @@ def run(m: Model, r: Report, tier: str) -> None:
     r.check("gallia_class.CONFIG_TYPE(**config)" in ast.unparse(rer.node), "R5", f"{rer.qualname}#reinstantiate", "the rerunner must re-instantiate CONFIG_TYPE from the stored mapping", loc=rer.loc)
 
     # ---------------------------------------------------------------- R6
-    ve = [f for f in m.require_class(f"{PARSER}.ArgumentParser").methods.values() if "extra_defaults[model][argument][0]" in ast.unparse(f.node)]
-    r.check(len(ve) == 1 and "default of {argument} from" in ast.unparse(ve[0].node), "R6", f"{PARSER}.ArgumentParser#names-source",
+    ve = [f for f in m.require_class(f"{PARSER}.ArgumentParser").methods.values() if "extra_defaults[_L][_L][0]" in m.mtext(f)]
+    r.check(len(ve) == 1 and "default of {_L} from" in m.mtext(ve[0]), "R6", f"{PARSER}.ArgumentParser#names-source",
             "validation errors of env/file defaults must name their source", loc=ve[0].loc if ve else "")
     if len(ve) == 1:
         src_ifs = [n for n in ast.walk(ve[0].node) if isinstance(n, ast.If) and "extra_defaults" in ast.unparse(n.test)
